@@ -125,6 +125,7 @@ class Run:
         self._distinct = set()
         self.info = []
         self.level = "other"
+        self.selftest = None
 
     # -- recording ---------------------------------------------------------
     def rule(self, rule, desc):
@@ -209,6 +210,14 @@ def finish(run, write_evidence=True):
     for (pid, key), k in kmap.items():
         if pid == run.pid and not any(f.key == key for f in run.findings):
             print("   note: listed known finding no longer reported: %s" % key)
+    st = run.selftest
+    if st:
+        print("   selftest: %d/%d mutants reported, %d/%d twins silent, "
+              "%d inapplicable on this tree"
+              % (st["mutants_fired"], st["mutants"], st["twins_silent"],
+                 st["twins"], len(st["inapplicable"])))
+        for m in st["misses"]:
+            print("   SELFTEST-MISS property=%s %s" % (run.pid, m))
     replay = None
     if new:
         outdir = os.path.join(VERIF, "out", "violations")
@@ -242,6 +251,7 @@ def finish(run, write_evidence=True):
                 "rules": run.rules,
                 "analysed": run.analysed,
                 "known_findings_reported": [f.key for f in listed],
+                "selftest": st or "not run in this tier",
                 "new_violations": [f.as_dict() for f in new],
                 "checker_cmd": "/venv/bin/python -m dalint check %s --tier %s"
                                % (run.pid, run.tier),
